@@ -341,8 +341,15 @@ def run_shards(ctx, fn_mod, fn_name, specs, procs=None):
     if procs == 1 or len(specs) == 1:
         results = [_shard_entry(a) for a in args]
     else:
-        with mp.get_context("fork").Pool(procs) as pool:
-            results = pool.map(_shard_entry, args, chunksize=1)
+        # ProcessPoolExecutor notices a worker that dies (e.g. killed for memory): BrokenProcessPool
+        # instead of the silent hang of Pool.map
+        from concurrent.futures import ProcessPoolExecutor
+        from concurrent.futures.process import BrokenProcessPool
+        try:
+            with ProcessPoolExecutor(max_workers=procs, mp_context=mp.get_context("fork")) as ex:
+                results = list(ex.map(_shard_entry, args, chunksize=1))
+        except BrokenProcessPool:
+            raise Infra("a worker process died (out of memory?)")
     for kind, payload in results:
         if kind == "infra":
             raise Infra(payload)
